@@ -1252,8 +1252,12 @@ def gen_structs(rng):
     elif r < 0.25:
         extra_row = st_vary(rng, t, False)[0]
     arity2 = rng.choice([0, 1]) if rng.random() < 0.2 else None
-    return mk_structs(t, form, term, ctx.cols, rng.sample(range(40), 3), extra_row, facts, unit, arity2,
+    prog = mk_structs(t, form, term, ctx.cols, rng.sample(range(40), 3), extra_row, facts, unit, arity2,
                       dot=rng.random() < 0.4, rng=rng)
+    # struct CONSTANTS and fn:struct are outside the Datalog model; a struct-typed variable copied from a declared
+    # predicate is inside it (the struct case of the conformance model of C12 decides)
+    prog["modelable"] = term is not None and term[0] == "var" and not facts
+    return prog
 
 
 BF_TYPES = [T.NUMBER, T.STRING, T.tc("/a"), T.tc("/b"), T.tlist(T.NUMBER)]
@@ -1289,7 +1293,7 @@ def gen_basefacts(rng):
     npred = rng.choice([2, 2, 3, 3, 4])
     shapes = T.dedup([[rng.choice(BF_TYPES) for _ in range(ar)] for _ in range(rng.choice([1, 2, 2, 3]))])
     ids = rng.sample(range(40), npred + 3)
-    nbad = rng.choice([0, 0, 0, 0, 1, 1, 1, 1, 1, 2])
+    nbad = rng.choice([0, 0, 0, 0, 0, 1, 1, 1, 1, 2])
     bad_preds = set(rng.sample(range(npred), min(nbad, npred)))
     decl_list, facts = [], []
     for k in range(npred):
@@ -1369,6 +1373,7 @@ def exhaustive_round2(rng):
                                     ss = [["/id", s_id, so_id], ["/note", s_note, so_note]]
                                     s = T.tstruct([[f, x] for f, x, o in ss if not o], [[f, x] for f, x, o in ss if o])
                                     progs.append(mk_structs(t, "copy", V(0), [s], [0, 1, 2], rng=rng))
+                                    progs[-1]["modelable"] = True
     three = [T.NUMBER, T.STRING, T.tc("/a")]
     consts = [T.cnum(1), T.cstr("s"), T.cname("/a/x")]
     for d0 in three:
@@ -1674,7 +1679,7 @@ def run(ck):
     n_st, n_bf = ck.n(70, 1500), ck.n(60, 1500)
     for k in range(n_st + n_bf):
         prog = gen_structs(rng) if k < n_st else gen_basefacts(rng)
-        prog["to_model"] = k >= n_st and (ck.quick or k % 2 == 0)      # struct constants are outside the Datalog model
+        prog["to_model"] = prog.get("modelable", False) or (k >= n_st and (ck.quick or k % 2 == 0))
         progs.append(prog)
     exhaustive = not ck.quick
     nexh = nexh2 = nexh3 = 0
@@ -1689,7 +1694,7 @@ def run(ck):
             progs.append(prog)
             nexh2 += 1
         for prog in exhaustive_round2(rng):
-            prog["to_model"] = prog["stream"] == "basefacts"
+            prog["to_model"] = prog["stream"] == "basefacts" or prog.get("modelable", False)
             progs.append(prog)
             nexh3 += 1
     ck.log("%d programs (%d corpus, %d exhaustive block)" % (len(progs), ncorpus, nexh + nexh2 + nexh3))
@@ -1724,7 +1729,13 @@ def run(ck):
                              "{/number,/string,/a,/b} with the head admitting every non-empty subset; an undeclared recursive "
                              "predicate over every chain of 3 of {/number,/string,/a} and two chains of 4, every order of the step "
                              "rows, both clause orders, both premise orders, every admitted depth, reached by BoundsCheck's loop / "
-                             "on demand" % (nexh, len(EXH_TYPES), len(EXH_JOIN), len(EXH_CONSTS), nexh2)) if exhaustive else "",
+                             "on demand; %d programs of the two shapes added after the second round of seeding: a struct "
+                             "declaration over the fields /id, /note, each required / optional, declared and supplied field "
+                             "types from {/number,/string}, supplied by a base fact, a struct literal in the head, S = {..}, "
+                             "or a copy from a declared struct predicate with each field required / optional; two unary declared "
+                             "predicates, each declared /number, /string or /a, with 1+1, 2+1, 1+2 base facts drawn from "
+                             "{1, \"s\", /a/x} in every textual order"
+                             % (nexh, len(EXH_TYPES), len(EXH_JOIN), len(EXH_CONSTS), nexh2, nexh3)) if exhaustive else "",
         "samples": stats["samples"],
     }
     return ck.finish(cov, assumptions=[
